@@ -175,10 +175,11 @@ def run(rep, tier):
 def check(tier):
     rep = Report("C06", tier, "other")
     declare(rep)
-    from . import c02
-    c02.param_lint(rep)
     io_array.declare_c06(rep)
     gs = run(rep, tier)
+    if not rep.violations:
+        from . import c02
+        c02.param_lint(rep)
     rep.assumptions = ["nothing is executed: this is agreement of the writer's and the reader's item tables plus routing of every field - necessary for the round trip, and with IO1-IO6 close to sufficient",
                        "std::ostream::write / std::istream::read transfer exactly the bytes they are given / asked for",
                        "the opaque probe stands for any inner backend (its own serialisation is one DELEGATE item)"]
